@@ -1,6 +1,8 @@
 import ExprModel.Gen.ParserTables
 import ExprModel.Proofs.ParsePrintTop
 import ExprModel.Proofs.ParserMono
+import ExprModel.Syntax.ParserNum
+import ExprModel.Props.C12
 /-
 C11 — Parsing follows the documented precedence and associativity.
 
@@ -56,7 +58,7 @@ theorem tables_ok : TbOK Gen.parserTables := tbOK_of_check (by decide +kernel)
     conversion is a parameter constrained only by "reading a printed literal gives its value" (C12). -/
 structure Setting (cfg : Cfg) (sh : NumShow) : Prop where
   tables : cfg.tb = Gen.parserTables
-  int_rt : ∀ n : Nat, cfg.num (sh.showInt n) = some (.int n)
+  int_rt : ∀ n : Nat, n < 2 ^ 63 → cfg.num (sh.showInt n) = some (.int n)
   float_rt : ∀ b : UInt64, cfg.num (sh.showFloat b) = some (.float b)
 
 theorem Setting.hyp {cfg : Cfg} {sh : NumShow} (s : Setting cfg sh) : Hyp cfg sh :=
@@ -72,6 +74,23 @@ theorem parse_print {cfg : Cfg} {sh : NumShow} (hs : Setting cfg sh) (t : Node) 
     (pc : ParenChoice) (l : Loc) :
     ∃ f₀, ∀ f, f₀ ≤ f → parseFuel cfg f (printEof cfg sh pc l t) = .ok t :=
   parse_print_fuel cfg sh pc hs.hyp t hc l
+
+/-- The round trip with the integer side of the number conversion discharged by the lexer model (C12):
+    the parser model's `num` is `parseNumber` with the classification chain regenerated from parser.go,
+    integers are printed in decimal; only `strconv.ParseFloat`/`FormatFloat` remain a parameter (`pf`, `sf`,
+    constrained by: a printed float is classified as a float and reads back as itself). -/
+theorem parse_print_lexnum (pf : String → Option UInt64) (sf : UInt64 → String) (bad : String → Bool)
+    (hfloat : ∀ b, numVia Gen.numCfg pf (sf b) = some (.float b))
+    (t : Node) (pc : ParenChoice) (l : Loc) :
+    let cfg : Cfg := { tb := Gen.parserTables, num := numVia Gen.numCfg pf, badRegex := bad }
+    let sh : NumShow := { showInt := fun n => C12.decimalSpelling n [], showFloat := sf }
+    canon cfg 0 t = true → ∃ f₀, ∀ f, f₀ ≤ f → parseFuel cfg f (printEof cfg sh pc l t) = .ok t := by
+  intro cfg sh hc
+  refine parse_print ⟨rfl, ?_, hfloat⟩ t hc pc l
+  intro n hn
+  show numVia Gen.numCfg pf (C12.decimalSpelling n []) = some (.int n)
+  unfold numVia
+  rw [C12.decimal_roundtrip_code n hn []]
 
 /-- Redundant parentheses never change the tree: any two parenthesis choices parse to the same tree. -/
 theorem paren_invariance {cfg : Cfg} {sh : NumShow} (hs : Setting cfg sh) (t : Node) (hc : canon cfg 0 t = true)
